@@ -67,7 +67,156 @@ class TimeFamily(Family):
         return t[1] != t[2]
 
 
-FAMILIES = {f.name: f for f in [TimeFamily()]}
+# -------------------------------------------------------------------------------------------- amf
+import gen_amf as GA
+
+
+def mutate(rng, b):
+    b = bytearray(b)
+    if not b:
+        return bytes([rng.below(256)])
+    k = rng.below(7)
+    if k == 0:
+        b[rng.below(len(b))] ^= 1 << rng.below(8)
+    elif k == 1:
+        del b[rng.below(len(b)):]
+    elif k == 2:
+        i = rng.below(len(b)); b[i:i] = rng.bytes(rng.range(1, 4))
+    elif k == 3:
+        i = rng.below(len(b)); del b[i:i + rng.range(1, 4)]
+    elif k == 4:
+        b[rng.below(len(b))] = rng.choice([0, 1, 2, 3, 5, 6, 8, 9, 10, 0xff, 0x80])
+    elif k == 5:
+        b += rng.bytes(rng.range(1, 6))
+    else:
+        i = rng.below(len(b)); b[i] = rng.below(256)
+    return bytes(b)
+
+
+class AmfFamily(Family):
+    name = "amf"
+    anchored = ["amf0/src/serialization.rs", "amf0/src/deserialization.rs", "amf0/src/lib.rs"]
+    rule = ("one case = one generated value sequence V (type-directed: all 7 variants, numbers from NaN/inf/±0/subnormal "
+            "edges or random bit patterns, strings incl. empty, 4-byte UTF-8, lengths 65534..70000, objects with 0..5 "
+            "distinct names incl. prefixes of one another, and — in the 'bad' stream — empty and >65535-byte names; depth "
+            "≤ 5, plus nesting chains around the depth limit 126..130) exercised by: ?amf.enc (encoder vs model modulo map "
+            "order), !amf.rt (C04 oracle + reference decoder), !amf.refdec (foreign conformant encoding → library decoder), "
+            "!amf.trunc (every truncation point), amf.dec of the canonical bytes and of 2 mutations (decoder vs model); "
+            "fixed part: all 256 marker bytes × 3 tails, UTF-8 validity of malformed strings; non-trivial = the value "
+            "sequence contains a container or a string; distinct = distinct op text")
+
+    def gen(self, rng, tier, pid, stats):
+        """Ops are tailored to the property so that a change which breaks only a sibling property does not
+        disturb this one: C04 needs encoder + decoder-on-encoder-output; C12 needs everything; C19 the limits."""
+        c12 = pid in ("C12", "C03")
+        c04 = pid in ("C04", "C19")
+
+        def for_value(vs, cuts=True):
+            t = GA.texts(vs)
+            ok = all(GA.expressible(v) for v in vs)
+            ops = [f"?amf.enc {t}"]
+            if c04:
+                ops.append(f"!amf.rt {t}")
+            if c12:
+                ops.append(f"!amf.spec {t}")
+            if ok:
+                b = GA.encs(vs)
+                if len(b) < 200000:
+                    ops.append(f"amf.dec {GA.btok(b)}")
+                    bump(stats, "decoder_inputs_canonical")
+                if c12:
+                    ops.append(f"!amf.refdec {t} {rng.below(1 << 32)}")
+                    if len(b) < 4000 and cuts:
+                        ops.append(f"!amf.trunc {t}")
+                        for _ in range(2):
+                            ops.append(f"amf.dec {GA.btok(mutate(rng, b))}")
+                        ops.append(f"amf.dec {GA.btok(b[:rng.below(len(b) + 1)])}")
+                        bump(stats, "decoder_inputs_mutated_or_cut", 3)
+            return ops
+
+        # fixed, seed-independent part --------------------------------------------------------
+        if c12:
+            tails = ["-", "00", "000000000000000000000000"]
+            for m in range(256):
+                ops = []
+                for t in tails:
+                    ops.append(f"amf.dec {m:02x}{'' if t == '-' else t}")
+                    ops.append(f"!amf.marker {m} {t}")
+                bump(stats, "marker_cases")
+                yield ops
+            bad_utf8 = ["80", "c0af", "c1bf", "e08080", "e09f80", "eda080", "edbfbf", "f08080af", "f0808080", "f4908080", "f5808080",
+                        "c2", "e282", "f09f98", "ff", "fe", "c280", "e0a080", "ed9fbf", "ee8080", "f0908080", "f48fbfbf", "dfbf", "efbfbf",
+                        "61c2", "c2c2", "e2e2", "f8888080"]
+            yield [f"utf8 {h}" for h in bad_utf8] + [f"amf.dec 02{len(bytes.fromhex(h)):04x}{h}" for h in bad_utf8]
+            # boolean bytes, ECMA arrays, duplicate names, sentinel positions
+            yield ["amf.dec 0100", "amf.dec 0101", "amf.dec 0102", "amf.dec 01ff", "amf.dec 0180", "amf.dec 01",
+                   "amf.dec 080000000000016105000009", "amf.dec 08ffffffff00016105000009",
+                   "amf.dec 030001610500016106000009", "amf.dec 03000009", "amf.dec 030000", "amf.dec 03000005",
+                   "amf.dec 0300016109", "amf.dec 03000161", "amf.dec 0a0000000205", "amf.dec 0a00000002050905", "amf.dec 050905",
+                   "amf.dec 09", "amf.dec -", "amf.dec 0a00000000", "amf.dec 0a000000", "amf.dec 0200", "amf.dec 02000161",
+                   "amf.dec 0000", "amf.dec 003ff0000000000000"]
+        # nesting around the limit
+        for kind in ("a", "o", "m"):
+            for n in (1, 2, 126, 127, 128, 129, 130, 200):
+                bump(stats, "nesting_chain_cases")
+                yield for_value([GA.nest(kind, n)], cuts=False)
+        # long strings / names, empty names
+        for n in (65534, 65535, 65536, 70000):
+            yield for_value([("s", b"x" * n)], cuts=False) + for_value([("o", [(b"x" * n, ("z",))])], cuts=False)
+        yield for_value([("o", [(b"", ("z",))])]) + for_value([("a", [("o", [(b"a", ("o", [(b"", ("b", True))]))])])])
+        # random part ---------------------------------------------------------------------------
+        n = 1500 if tier == "quick" else 20000
+        for i in range(n):
+            bad = rng.chance(1, 5)
+            vs = [GA.gen_val(rng, rng.choice([0, 1, 2, 3, 5]), allow_bad=bad) for _ in range(rng.choice([1, 1, 2, 3]))]
+            if rng.chance(1, 40):
+                vs = []
+            ok = all(GA.expressible(v) for v in vs)
+            bump(stats, "expressible" if ok else "inexpressible")
+            bump(stats, f"maxdepth_{max([GA.depth(v) for v in vs] + [0])}")
+            yield for_value(vs)
+
+    def nontrivial(self, ops):
+        return any(("o{" in o or "a[" in o or " s" in o or o.startswith("amf.dec")) for o in ops)
+
+
+class AmfAdvFamily(Family):
+    name = "amfadv"
+    timeout_s = 900
+    anchored = ["amf0/src/deserialization.rs"]
+    rule = ("C14 adversarial decoder inputs, each decoded by the real library on a thread with a 512 KiB stack under the "
+            "counting allocator (oracle: returns, no abort, peak allocation ≤ 4·sizeof(Amf0Value)·len + 128 KiB): nested "
+            "arrays/objects/ECMA arrays/mixtures at depth len/5 … len/8 up to the tier's size, count fields 2^32-1 with no "
+            "elements, declared string length 65535 with 3 bytes, many tiny values, many properties; plus amf.dec "
+            "correspondence on run-length encoded deep inputs around the limit; non-trivial = every case; distinct = distinct op text")
+
+    def gen(self, rng, tier, pid, stats):
+        big = 200_000 if tier == "quick" else 3_300_000
+        for kind in ("arr", "obj", "ecma", "mix", "count"):
+            for n in (1, 127, 128, 129, 1000, 20000, big):
+                bump(stats, f"adv_{kind}")
+                yield [f"!amf.adv {kind} {n} 512"]
+        for n in (0, 10, 70000):
+            yield [f"!amf.adv strlen {n} 512"]
+        for n in (1000, 100000, 1000000 if tier == "quick" else 16_000_000):
+            yield [f"!amf.adv nulls {n} 512"]
+        for n in (10, 1000, 100000 if tier == "quick" else 2_000_000):
+            yield [f"!amf.adv props {n} 512"]
+            yield [f"!amf.adv widearr {n} 512"]
+        for unit in ("0a00000001", "03000161", "08ffffffff000161", "0a00000002"):
+            for n in (127, 128, 129, 500, 5000):
+                bump(stats, "deep_corr")
+                yield [f"amf.dec {unit}*{n}", f"amf.dec {unit}*{n}.05"]
+        yield ["amf.dec 0affffffff", "amf.dec 0affffffff05", "amf.dec 02ffff616263", "amf.dec 08ffffffff", "amf.dec 0affffffff*100"]
+        for _ in range(50 if tier == "quick" else 500):
+            # random mixtures of container openers with occasional closers
+            parts = []
+            for _ in range(rng.range(1, 300)):
+                parts.append(rng.choice(["0a00000001", "0a00000003", "03000161", "0800000000000162", "000009", "05", "0100", "09"]))
+            yield ["amf.dec " + "".join(parts)]
+
+
+FAMILIES = {f.name: f for f in [TimeFamily(), AmfFamily(), AmfAdvFamily()]}
 
 
 # ------------------------------------------------------------------------------- known findings
